@@ -25,6 +25,7 @@
     thread compiles — the `pubSafe` alternative of `PublishesOnly` covers exactly that.
 -/
 import Pyab.Properties.C17_effects
+import Pyab.Properties.PurePremise
 import Pyab.Model.Sched
 import Pyab.Proofs.Sched
 namespace Pyab.Properties
